@@ -89,8 +89,13 @@ class Gen:
             name = "itonly" if r.random() < self.itonly_p else r.choice(["inc", "dbl"])
             if self.cur_eng == "it2" and r.random() < 0.4:
                 name = "only2"
+            elif self.cur_eng in ("it", "it2") and r.random() < 0.25:
+                name = "bitlen"     # a method of the column value, not a function any engine knows
             if name == "itonly" and r.random() < 0.4:
                 return ["udfu", name, self.expr(cols, depth - 1, need_ref)]     # unrestricted twin of the same function
+            if name == "itonly" and r.random() < 0.3:
+                # restricted function hidden below one that declares every engine type itself
+                return ["udfa", r.choice(["inc", "dbl"]), ["udf", name, self.expr(cols, depth - 1, need_ref)]]
             return ["udf", name, self.expr(cols, depth - 1, need_ref)]
         op = r.choice(["add", "sub", "mul"])
         a = self.expr(cols, depth - 1, need_ref)
@@ -1024,6 +1029,8 @@ class Gen:
                         self.pool.append(tgt.copy(cols=tgt.cols | {free[0]}))
                 # ... then the engine-restricted one, which must be rejected
                 base["e"] = ["udf", "itonly", base["e"]]
+                if r.random() < 0.3:    # ... also when hidden below a function that declares every engine itself
+                    base["e"] = ["udfa", r.choice(["inc", "dbl"]), base["e"]]
                 if base.get("pe") not in (None, "sql"):
                     if r.random() < 0.5:
                         base.pop("pe")
@@ -1051,6 +1058,8 @@ class Gen:
                     if r.random() < 0.5:
                         base["t"] = len(self.pool) - 1      # ... stacked directly on the valid twin (they would merge)
                 base["p"] = ["cmp", "gt", ["udf", "itonly", ["ref", sorted(tgt.cols)[0]]], ["lit", 0]]
+                if r.random() < 0.3:
+                    base["p"] = ["cmp", "gt", ["udfa", "dbl", base["p"][2]], ["lit", 0]]
                 if r.random() < 0.35:
                     base["p"] = ["cmpr", r.choice(["lt", "ge", "eq"]), ["ref", sorted(tgt.cols)[0]], ["lit", 0]]
                 if base.get("pe") not in (None, "sql"):
